@@ -701,7 +701,7 @@ func c06SharedCheck(c c06Shared) vfResult {
 	defer SetLimit(defaultLimit)
 	SetLimit(c.Limit)
 	want := vfChainStr(Detect(x))
-	g := max(2, min(c.G, 8))
+	g := max(2, min(c.G, 64))
 	errs := make([]error, g)
 	start := make(chan struct{})
 	var wg sync.WaitGroup
@@ -710,7 +710,11 @@ func c06SharedCheck(c c06Shared) vfResult {
 		go func(i int) {
 			defer wg.Done()
 			<-start
-			for k := 0; k < 6; k++ {
+			rounds := 6
+			if len(x) > 20000 {
+				rounds = 2
+			}
+			for k := 0; k < rounds; k++ {
 				if got := vfChainStr(Detect(x)); got != want {
 					errs[i] = fmt.Errorf("%d goroutines detect one shared %d-byte slice under limit %d: one of them got %s, alone the answer is %s; head %s", g, len(x), c.Limit, got, want, vfQ(x[:min(len(x), 60)]))
 					return
@@ -788,6 +792,89 @@ func c06FirstCheck(c c06First) vfResult {
 		}
 	}
 	r.Nontrivial = c.Depth >= 2
+	cb, _ := ejson.Marshal(c)
+	r.Hash = vfHash(cb)
+	return r
+}
+
+// ---------------------------------------------------------------------------------
+// limitflip: SetLimit toggles between two values while workers detect one input whose answer
+// under "cut for A, judged under B" differs from the answers under A and under B. Every
+// result must be the answer for A or the answer for B; nothing may panic.
+
+type c06Flip struct {
+	Input   vfB    `json:"input"`
+	A       uint32 `json:"limit_a"`
+	B       uint32 `json:"limit_b"`
+	Workers int    `json:"workers"`
+	Spare   int    `json:"spare_capacity"` // capacity of the callers' slices beyond their length
+	Entry   string `json:"entry"`
+}
+
+func c06FlipCheck(c c06Flip) vfResult {
+	var r vfResult
+	vfJournal("C06", "limitflip", c)
+	defer SetLimit(defaultLimit)
+	base := []byte(c.Input)
+	SetLimit(c.A)
+	wa := vfChainStr(Detect(base))
+	SetLimit(c.B)
+	wb := vfChainStr(Detect(base))
+	var stop int32
+	var wg sync.WaitGroup
+	wg.Add(1)
+	go func() {
+		defer wg.Done()
+		for i := 0; atomic.LoadInt32(&stop) == 0; i++ {
+			if i%2 == 0 {
+				SetLimit(c.A)
+			} else {
+				SetLimit(c.B)
+			}
+		}
+	}()
+	errs := make([]error, c.Workers)
+	var ww sync.WaitGroup
+	for w := 0; w < c.Workers; w++ {
+		ww.Add(1)
+		go func(w int) {
+			defer ww.Done()
+			defer func() {
+				if p := recover(); p != nil {
+					errs[w] = fmt.Errorf("panic while SetLimit toggles between %d and %d: %v", c.A, c.B, p)
+				}
+			}()
+			x := make([]byte, len(base), len(base)+c.Spare)
+			copy(x, base)
+			for i := 0; i < 1500; i++ {
+				var got string
+				if c.Entry == "reader" {
+					m, err := DetectReader(bytes.NewReader(x))
+					if err != nil {
+						errs[w] = fmt.Errorf("DetectReader: %v", err)
+						return
+					}
+					got = vfChainStr(m)
+				} else {
+					got = vfChainStr(Detect(x))
+				}
+				if got != wa && got != wb {
+					errs[w] = fmt.Errorf("while SetLimit toggles between %d and %d, %s on %s returned %s; under %d the answer is %s, under %d it is %s", c.A, c.B, c.Entry, vfQ(base[:min(len(base), 60)]), got, c.A, wa, c.B, wb)
+					return
+				}
+			}
+		}(w)
+	}
+	ww.Wait()
+	atomic.StoreInt32(&stop, 1)
+	wg.Wait()
+	for _, e := range errs {
+		if e != nil {
+			r.Err = e
+			return r
+		}
+	}
+	r.Nontrivial = wa != wb || len(base) > int(c.A)
 	cb, _ := ejson.Marshal(c)
 	r.Hash = vfHash(cb)
 	return r
@@ -965,6 +1052,19 @@ func TestVerif_C06(t *testing.T) {
 				}
 			}
 		}
+		if !vfReplayMode() && vfShard() < 3 && !t.Failed() {
+			// more goroutines than processors, each inside a deep (1100-4000 levels) document
+			d := []int{1100, 2000, 4000}[vfShard()]
+			x := []byte(strings.Repeat("[", d) + "[" + strings.Repeat("{\"k\":[1,2,3],\"s\":\"text\"},", 6000) + "1]" + strings.Repeat("]", d))
+			c := c06Shared{X: x, Limit: 0, G: 64}
+			r := c06SharedCheck(c)
+			r.Labels = append(r.Labels, "deep-crowd")
+			vfStats.record(r, func() any { return map[string]any{"sub": "shared", "deep": d, "len": len(x), "goroutines": 64} })
+			if r.Err != nil {
+				vfEnumFail(t, "C06", "shared", c, r.Err)
+				return
+			}
+		}
 		vfRun(t, vfSub[c06Shared]{Prop: "C06", Name: "shared", Checks: vfN(1200, 160000), Check: c06SharedCheck,
 			Sample: func(c c06Shared) any {
 				return map[string]any{"sub": "shared", "len": len(c.X), "head": vfQ(c.X[:min(len(c.X), 40)]), "limit": c.Limit, "goroutines": c.G}
@@ -1004,6 +1104,24 @@ func TestVerif_C06(t *testing.T) {
 				return c06First{Depth: rapid.IntRange(1, 16).Draw(t, "depth"), G: rapid.SampledFrom([]int{2, 4, 8, 16, 48}).Draw(t, "g"),
 					Parent: rapid.SampledFrom([]string{"", "text/plain", "application/zip", "application/json"}).Draw(t, "parent"),
 					Input:  vfB(rapid.SampledFrom([]string{"VF0: plain text\n", "VF0:{\"a\":1}", "PK\x03\x04VF0:", "{\"VF0:\":1}"}).Draw(t, "input"))}
+			}})
+	}
+	if t.Failed() {
+		return
+	}
+	if vfOnlySub("limitflip") {
+		vfRun(t, vfSub[c06Flip]{Prop: "C06", Name: "limitflip", Checks: vfN(32, 3200), Check: c06FlipCheck,
+			Gen: func(t *rapid.T) c06Flip {
+				docs := []string{
+					"[" + strings.Repeat("1,", 60) + "1]",
+					"{\"type\":\"Feature\",\"properties\":{\"name\":\"" + strings.Repeat("x", 200) + "\"}}",
+					"a,b,c\n" + strings.Repeat("1,2,3\n", 40) + "4,5",
+					strings.Repeat("{\"k\":1}\n", 30) + "{\"k\":",
+					"plain text " + strings.Repeat("word ", 40) + "\x00\x01",
+				}
+				return c06Flip{Input: vfB(rapid.SampledFrom(docs).Draw(t, "doc")), A: rapid.SampledFrom([]uint32{16, 40, 64}).Draw(t, "a"),
+					B: rapid.SampledFrom([]uint32{0, 4096, 1 << 16}).Draw(t, "b"), Workers: rapid.SampledFrom([]int{2, 4, 8}).Draw(t, "workers"),
+					Spare: rapid.SampledFrom([]int{0, 0, 16, 5000}).Draw(t, "spare"), Entry: rapid.SampledFrom([]string{"detect", "detect", "reader"}).Draw(t, "entry")}
 			}})
 	}
 	if t.Failed() {
